@@ -138,6 +138,19 @@ class SimStream(io.BufferedIOBase):
         return self._b.closed
 
 
+_FMT_SKINS = ["%3A%s%2F%d", "{0}{}{pid!r}", "%(pid)s%", "\\N{{x}}%"]
+
+
+def skin_pids(pids, knobs):
+    sk = knobs.get("pid_skin")
+    if not sk or knobs.get("chdir"):
+        return list(pids)
+    if sk[0] == "long":
+        return [p + ":" + ("0123456789abcdef" * (sk[1] // 16 + 1))[: max(0, sk[1] - len(p) - 1)] for p in pids]
+    frag = _FMT_SKINS[sk[1] % len(_FMT_SKINS)]
+    return [p + frag for p in pids]
+
+
 class World(object):
     """One sandbox + one store configuration + the alphabets of a program."""
 
@@ -151,7 +164,7 @@ class World(object):
         self.input_dir = os.path.join(self.sandbox, "input")
         with seam.passthrough():
             os.makedirs(self.input_dir, exist_ok=True)
-        self.pids = prog["pids"]
+        self.pids = skin_pids(prog["pids"], self.knobs)
         self.formats = prog.get("formats", [])
         self.contents = [make_content(s) for s in prog["contents"]]
         self.mcontents = [make_content(s) for s in prog.get("mcontents", prog["contents"])]
@@ -160,8 +173,10 @@ class World(object):
                             write_through=self.knobs.get("write_through", False),
                             shuffle_listdir=self.knobs.get("shuffle_listdir", True),
                             **(run_kwargs or {}))
+        self.run.short_writes = bool(self.knobs.get("short_writes", False))
         self.mp = bool(self.knobs.get("mp", False))
         self.store = None
+        self.store2 = None
         self._write_inputs()
 
     # -- files the caller supplies -------------------------------------------------------------
@@ -184,7 +199,9 @@ class World(object):
 
     def props(self, cfg=None):
         cfg = cfg or self.cfg
-        p = {"store_path": self.store_root}
+        # "relstore": the store is configured with a path relative to the caller's working directory
+        # (the engine runs inside the sandbox then)
+        p = {"store_path": "store" if self.knobs.get("relstore") else self.store_root}
         for k in ("store_depth", "store_width", "store_algorithm", "store_metadata_namespace"):
             if k in cfg:
                 p[k] = cfg[k]
@@ -195,6 +212,7 @@ class World(object):
     def open_store(self, cfg=None):
         """Construct a FileHashStore on the sandbox (through the seam)."""
         old = os.environ.get("USE_MULTIPROCESSING")
+        self.store2 = None
         if self.mp:
             os.environ["USE_MULTIPROCESSING"] = "True"
         else:
@@ -223,6 +241,14 @@ class World(object):
             else:
                 os.environ["USE_MULTIPROCESSING"] = old
         return self.store
+
+    def second(self):
+        """A second instance on the same directory (same configuration), created on first use."""
+        if self.store2 is None:
+            first = self.store
+            self.open_store()
+            self.store2, self.store = self.store, first
+        return self.store2
 
     def _construct(self, cfg):
         if self.knobs.get("factory", True):
@@ -311,7 +337,7 @@ class World(object):
 
     def exec_op(self, op, store=None):
         """Run one operation on the real store; returns (outcome, extra)."""
-        st = store or self.store
+        st = store or (self.second() if op.get("inst") else self.store)
         name = op["op"]
         extra = {}
         finish = None
